@@ -5,7 +5,7 @@ One stored file, several consumer handles opened on it with different configurat
 API documents for that mode; all results must agree with each other and with the model."""
 import numpy as np
 
-from .. import gen, lib, ops
+from .. import gen, lib, ops, fmt
 from ..backends import store
 from ..compare import V
 from ..core import Result, digest
@@ -142,7 +142,7 @@ def collect_file_chunks(tf, retained=False):
         for chunk in stream:
             for g in chunk.groups():
                 for cc in g.channels():
-                    p = cc._channel.path
+                    p = fmt.quote_path(g.name, cc.name)
                     try:
                         d = cc[:]
                     except Exception as exc:
